@@ -343,10 +343,13 @@ impl Matrix {
             // operand choices
             let ys: Vec<(Option<Kind>, Prep)> = match &case.y {
                 YSpec::Bits(yb) => {
-                    let cands: Vec<Kind> = match &case.ykinds {
+                    let cands: Vec<Kind> = if case.op == "clone_from" {
+                        // Clone::clone_from takes a source of the subject's own type
+                        if kx.admits(yb.len()) { vec![kx] } else { vec![] }
+                    } else { match &case.ykinds {
                         Some(k) => k.iter().copied().filter(|k| k.admits(yb.len())).collect(),
                         None => ALL_KINDS.iter().copied().filter(|k| k.admits(yb.len())).collect(),
-                    };
+                    } };
                     let mut v = Vec::new();
                     if !cands.is_empty() {
                         for t in 0..self.ny.min(cands.len()) {
